@@ -387,10 +387,12 @@ func (w *workerEnv) serve(id int, method, path string, headers [][2]string, body
 
 // settle waits until no goroutine created since base (with repository frames) is left, polling with scheduler
 // yields first and short sleeps later; returns what is left after the bound, and the last census taken.
+var settleRounds = 400 // 50 scheduler yields, then sleeps of 2 ms (solo re-runs: 10x as many)
+
 func settle(base map[int]gor) ([]string, map[int]gor) {
 	var left []string
 	var cur map[int]gor
-	for i := 0; i < 400; i++ {
+	for i := 0; i < settleRounds; i++ {
 		left = left[:0]
 		cur = census()
 		for id, g := range cur {
@@ -581,6 +583,9 @@ func workerMain(file string, offset int64, count int, deadline time.Duration, st
 		if e := json.Unmarshal(line, &in); e != nil {
 			w.emit("X", map[string]any{"msg": "bad input line: " + e.Error()})
 			os.Exit(4)
+		}
+		if count == 1 {
+			settleRounds = 4000
 		}
 		fmt.Fprintf(out, "B %d\n", in.ID)
 		out.Flush()
